@@ -68,6 +68,9 @@ def corpus(tier):
                 yield space.rename(d, {kk: v for kk, v in ESC.items() if "." not in v})
             if k % 16 == 0:
                 yield space.to_desc(I, gates, outputs="all")
+            if k % 24 == 0:
+                # escaped identifiers may contain any printable non-blank character
+                yield space.rename(d, {"a": "\\a,b", "g0": "\\d(0)", "g1": "\\x;y"})
     # constants 0 / 1 feeding gates and as outputs; x constants
     for gates in space.circuits(1, 2 if tier != "quick" else 1, max_arity=3, consts=("0", "1"), min_gates=1):
         yield space.to_desc(1, gates, consts=("0", "1"), outputs="sinks")
